@@ -308,13 +308,14 @@ Definition c_escape_char (c : Z) : str :=
   else if c =? 34 then [92; 34]        (* backslash, double quote *)
   else if c =? 39 then [92; 39]        (* \' *)
   else if c =? 92 then [92; 92]        (* \\ *)
+  else if c =? 63 then [92; 63]        (* \? : no trigraph can form in the emitted literal *)
   else if is_print c then [c]
   else 92 :: octal3 c.                 (* \ooo *)
 Definition c_escape (s : str) : str := flat_map c_escape_char s.
 
 (* translation phase 1: ??= ??( ??/ ??) ??' ??< ??! ??> ??-  become  # [ \ ] ^ { | } ~
-   TOOL: CEscape leaves '?' alone, so under -std=c99 / -std=c11 a default that contains one of
-   these sequences is compiled to different bytes. *)
+   (CEscape escapes '?' since the "fix:" commit, so none of these can occur in an emitted literal:
+   Proofs/GenDefaults.v.) *)
 Definition trigraph_char (c : Z) : option Z :=
   if c =? 61 then Some 35 else if c =? 40 then Some 91 else if c =? 47 then Some 92
   else if c =? 41 then Some 93 else if c =? 39 then Some 94 else if c =? 60 then Some 123
@@ -434,17 +435,17 @@ Definition printf_g_value (p : Z) (n d : Z) : Z * Z :=
 
 (* bits of the C object initialised with the text SimpleFtoa / SimpleDtoa prints for the value
    with bit pattern [bits] of format [f].
-   TOOL: 6 / 15 significant digits do not round-trip, so the compiled default can differ from the
-   schema's; "-0" is an int constant, so a negative zero becomes +0; infinities and NaN print as
-   "inf" / "nan", which does not compile (the bit pattern is returned unchanged for them). *)
+   (9 / 17 significant digits since the "fix:" commit; an integral text gets ".0" appended, so a
+   negative zero keeps its sign.)  TOOL: infinities and NaN print as "inf" / "nan", which does not
+   compile (the bit pattern is returned unchanged for them). *)
 Definition compiled_fp_default (f : fpfmt) (bits : Z) : Z :=
   let mag := bits mod fmt_sign f in
   let neg := fmt_sign f <=? bits in
-  if mag =? 0 then 0
+  if mag =? 0 then bits                 (* "0.0" / "-0.0" *)
   else if fmt_inf f <=? mag then bits
   else
     let '(n, d) := fp_value f mag in
-    let '(pn, pd) := printf_g_value (if fmt_mbits f =? 23 then 6 else 15) n d in
+    let '(pn, pd) := printf_g_value (if fmt_mbits f =? 23 then 9 else 17) n d in
     (* the constant has type double *)
     let dbits := fp_round fmt_double pn pd in
     let r :=
